@@ -363,7 +363,28 @@ func c06NullForwardRefNodeValues(log []ev.Event) ([]ev.Event, int) {
 	marked := map[string]bool{}
 	afterNode := false
 	n := 0
-	for _, e := range log {
+	// markedInsideNode: is the marker defined before the node (opened just before position i) ends? Then the node has not been
+	// copied into its parent yet when the reference is filled in, and nothing is lost.
+	markedInsideNode := func(i int, id string) bool {
+		depth := 0
+		for _, e := range log[i+1:] {
+			switch e.K {
+			case ev.LIST, ev.MAP, ev.NODE, ev.EDGE, ev.RECORD, ev.RECTYPE:
+				depth++
+			case ev.END:
+				if depth == 0 {
+					return false
+				}
+				depth--
+			case ev.MARK:
+				if string(e.B) == id {
+					return true
+				}
+			}
+		}
+		return false
+	}
+	for i, e := range log {
 		switch e.K {
 		case ev.COM, ev.PAD:
 			out = append(out, e)
@@ -371,7 +392,7 @@ func c06NullForwardRefNodeValues(log []ev.Event) ([]ev.Event, int) {
 		case ev.MARK:
 			marked[string(e.B)] = true
 		case ev.REF:
-			if afterNode && !marked[string(e.B)] {
+			if afterNode && !marked[string(e.B)] && !markedInsideNode(i, string(e.B)) {
 				e = ev.Event{K: ev.NULL}
 				n++
 			}
